@@ -371,3 +371,35 @@ func storesToFreeVar(fn *ssa.Function, fv *ssa.FreeVar) int {
 	}
 	return n
 }
+
+// StructEq reports whether two values are structurally the same expression
+// over identical leaves: same field/index addressing chains and loads rooted
+// at the same SSA values (no intervening-store analysis; use for pure reads
+// within one iteration).
+func StructEq(a, b ssa.Value, depth int) bool {
+	a, b = Strip(a), Strip(b)
+	if a == b {
+		return true
+	}
+	if depth > 8 {
+		return false
+	}
+	switch x := a.(type) {
+	case *ssa.IndexAddr:
+		y, ok := b.(*ssa.IndexAddr)
+		return ok && StructEq(x.X, y.X, depth+1) && StructEq(x.Index, y.Index, depth+1)
+	case *ssa.FieldAddr:
+		y, ok := b.(*ssa.FieldAddr)
+		return ok && x.Field == y.Field && StructEq(x.X, y.X, depth+1)
+	case *ssa.Field:
+		y, ok := b.(*ssa.Field)
+		return ok && x.Field == y.Field && StructEq(x.X, y.X, depth+1)
+	case *ssa.UnOp:
+		y, ok := b.(*ssa.UnOp)
+		return ok && x.Op == y.Op && StructEq(x.X, y.X, depth+1)
+	case *ssa.Const:
+		y, ok := b.(*ssa.Const)
+		return ok && x.Value != nil && y.Value != nil && x.Value.ExactString() == y.Value.ExactString() && types.Identical(x.Type(), y.Type())
+	}
+	return false
+}
